@@ -3,24 +3,24 @@
 //
 // Script events (inputs) and what the driver adds (observations):
 //
-//   reset  {limit, cipher, chunk, etc, ext}  one fresh directory per execution (/c25/x<n>/ or /etc/c25/x<n>/);
-//          limit (SaveToFilerLimit) and cipher (chunks encrypted) select the driver process (--limit, --cipher)
-//   write  {p, m: put|post|postdir, op: set|append, s, n, kind: rand|text, te, maxmb,
-//           fail: -1|j, fm: ""|reader|cut|cutte}
-//          -> st (HTTP status, 0 = no response / transport error), err (text, informational)
-//          the body is segment s: n bytes whose low nibble is s (so that any later
-//          content can be cut into slices of known segments); fail >= 0: the body
-//          breaks after j bytes: reader = the http client's body reader returns an
-//          error (chunked transfer encoding), cut = raw TCP with Content-Length n,
-//          j bytes, then the sending half is closed (the filer can still answer), cutte = same with one
-//          chunked-encoding chunk announced as n bytes, abort = as cut, but the connection is reset as
-//          soon as the request has entered the filer's handler
-//   create {p, how: chunks|nosize|inline|grpcappend, segs: [{s, n}...]}
-//          -> st "ok"      entry made through the filer's gRPC API (AssignVolume + upload + CreateEntry
-//          with / without the FileSize attribute, inline Content, or AppendToEntry per segment)
-//   get    {p} -> st, c (the content returned by the filer's GET as a sequence of slices
-//          {s, a, b} = bytes [a, b) of segment s; s = 0: bytes not recognised, s = -1: zero bytes),
-//          len, fsize / ctotal / clen / nchunks (the entry through gRPC LookupDirectoryEntry; informational)
+//	reset  {limit, cipher, chunk, etc, ext}  one fresh directory per execution (/c25/x<n>/ or /etc/c25/x<n>/);
+//	       limit (SaveToFilerLimit) and cipher (chunks encrypted) select the driver process (--limit, --cipher)
+//	write  {p, m: put|post|postdir, op: set|append, s, n, kind: rand|text, te, maxmb,
+//	        fail: -1|j, fm: ""|reader|cut|cutte}
+//	       -> st (HTTP status, 0 = no response / transport error), err (text, informational)
+//	       the body is segment s: n bytes whose low nibble is s (so that any later
+//	       content can be cut into slices of known segments); fail >= 0: the body
+//	       breaks after j bytes: reader = the http client's body reader returns an
+//	       error (chunked transfer encoding), cut = raw TCP with Content-Length n,
+//	       j bytes, then the sending half is closed (the filer can still answer), cutte = same with one
+//	       chunked-encoding chunk announced as n bytes, abort = as cut, but the connection is reset as
+//	       soon as the request has entered the filer's handler
+//	create {p, how: chunks|nosize|inline|grpcappend, segs: [{s, n}...]}
+//	       -> st "ok"      entry made through the filer's gRPC API (AssignVolume + upload + CreateEntry
+//	       with / without the FileSize attribute, inline Content, or AppendToEntry per segment)
+//	get    {p} -> st, c (the content returned by the filer's GET as a sequence of slices
+//	       {s, a, b} = bytes [a, b) of segment s; s = 0: bytes not recognised, s = -1: zero bytes),
+//	       len, fsize / ctotal / clen / nchunks (the entry through gRPC LookupDirectoryEntry; informational)
 //
 // The driver executes and records; it has no opinion about any result.
 package main
@@ -32,6 +32,7 @@ import (
 	"errors"
 	"flag"
 	"fmt"
+	"github.com/chrislusf/seaweedfs/weed/storage"
 	"io"
 	"io/ioutil"
 	"math/rand"
@@ -188,6 +189,31 @@ func (r *run) write(e tr.Ev) {
 		if fail >= 0 {
 			cut = hdr + fail
 		}
+	}
+	if vro := tr.I(e, "vro"); vro > 0 {
+		// "vro": N = every volume of the volume servers refuses writes (read-only) for the first N ms of this request:
+		// the filer's first upload of a chunk fails and it has to assign another file id and send the chunk again.
+		// Whatever the timing turns out to be, the statement holds: success => exactly the body, failure => unchanged.
+		var vols []*storage.VolumeInfo
+		for _, vs := range r.c.Volumes {
+			st := vs.Server.VerifStore()
+			for _, vi := range st.VolumeInfos() {
+				if !vi.ReadOnly && st.MarkVolumeReadonly(vi.Id) == nil {
+					vols = append(vols, vi)
+				}
+			}
+		}
+		back := make(chan struct{})
+		go func() {
+			time.Sleep(time.Duration(vro) * time.Millisecond)
+			for _, vs := range r.c.Volumes {
+				for _, vi := range vols {
+					vs.Server.VerifStore().MarkVolumeWritable(vi.Id)
+				}
+			}
+			close(back)
+		}()
+		defer func() { <-back }()
 	}
 	st, errText := 0, ""
 	started0 := atomic.LoadInt64(&started)
